@@ -53,20 +53,22 @@ func init() {
 // ---- scenarios ------------------------------------------------------------------
 
 type scenario struct {
-	Name      string
-	EUT       string // client | server  (which side is zcrypto under test)
-	GoPeer    bool   // recording peer is Go's crypto/tls (otherwise zcrypto)
-	Cell      cell
-	Auth      bool // server requests a client certificate
-	Resume    bool // transcript of a resumed session
-	HRR       bool // TLS 1.3 HelloRetryRequest
-	Reneg     bool // client under test allows renegotiation
-	Staple    bool // server certificate carries OCSP staple and SCTs
-	NoTicket  bool
-	EMS       bool   // client under test offers the extended master secret
-	Insecure  bool   // client under test does not verify the server (scanner configuration)
-	Synth     string // "dhe": the server flight is built by hand (no zcrypto or Go server negotiates DHE)
-	SynthHash int    // TLS 1.2 synthetic flights: HashAlgorithm of the ServerKeyExchange signature (0 = sha256)
+	Name        string
+	EUT         string // client | server  (which side is zcrypto under test)
+	GoPeer      bool   // recording peer is Go's crypto/tls (otherwise zcrypto)
+	Cell        cell
+	Auth        bool // server requests a client certificate
+	Resume      bool // transcript of a resumed session
+	HRR         bool // TLS 1.3 HelloRetryRequest
+	Reneg       bool // client under test allows renegotiation
+	Staple      bool // server certificate carries OCSP staple and SCTs
+	NoTicket    bool
+	EMS         bool   // client under test offers the extended master secret
+	AllSuites13 bool   // TLS 1.3 client under test offers all three suites (the cell's first), so that a HelloRetryRequest may name another one
+	PrimeSuite  uint16 // with Resume: the ticket comes from a first server restricted to this suite, the transcript's server to the cell's (live suite change across an HRR)
+	Insecure    bool   // client under test does not verify the server (scanner configuration)
+	Synth       string // "dhe": the server flight is built by hand (no zcrypto or Go server negotiates DHE)
+	SynthHash   int    // TLS 1.2 synthetic flights: HashAlgorithm of the ServerKeyExchange signature (0 = sha256)
 }
 
 type frozenCache struct {
@@ -111,6 +113,18 @@ func (sc *scenario) eutClient(cache *frozenCache, keylog io.Writer) *ztls.Config
 	}
 	c.InsecureSkipVerify = sc.Insecure
 	c.ExtendedMasterSecret = sc.EMS
+	if sc.AllSuites13 {
+		first := sc.Cell.Suite
+		if sc.PrimeSuite != 0 {
+			first = sc.PrimeSuite
+		}
+		c.CipherSuites = []uint16{first}
+		for _, id := range ztls.VerifTLS13Suites() {
+			if id != first {
+				c.CipherSuites = append(c.CipherSuites, id)
+			}
+		}
+	}
 	c.ForceSuites = sc.Synth != "" // the client-only suites are offered only when forced
 	return c
 }
@@ -184,9 +198,17 @@ func scenarios() []scenario {
 	for _, key := range []string{"0303/c02f", "0303/002f", "0301/c013"} {
 		add(scenario{Name: "+ems", EMS: true}, key)
 	}
+	// TLS 1.3 resumption answered with a HelloRetryRequest: the client holds a ticket from connection 1, connection 2's
+	// server insists on a group the client sent no share for; the client offers all suites, so an HRR may name another one
+	for _, key := range []string{"0304/1301", "0304/1302", "0304/1303"} {
+		add(scenario{Name: "+resume+hrr", Resume: true, HRR: true, AllSuites13: true}, key)
+	}
+	// live variant: two servers share the ticket key, the first is restricted to one suite, the second to a suite with another hash
+	add(scenario{Name: "+resume+hrr+ticket-from-1301", Resume: true, HRR: true, AllSuites13: true, PrimeSuite: ztls.TLS_AES_128_GCM_SHA256}, "0304/1302")
+	add(scenario{Name: "+resume+hrr+ticket-from-1302", Resume: true, HRR: true, AllSuites13: true, PrimeSuite: ztls.TLS_AES_256_GCM_SHA384}, "0304/1301")
 	kept := out[:n]
 	for _, s := range out[n:] {
-		if s.EUT == "client" {
+		if s.EUT == "client" && !(s.PrimeSuite != 0 && s.GoPeer) {
 			kept = append(kept, s)
 		}
 	}
@@ -254,6 +276,7 @@ func (sc *scenario) record() (*transcript, error) {
 		cache = &frozenCache{open: true}
 	}
 	t.cache = cache
+	primeRun := false
 	run := func() (*tlspair.Result, *tlspair.SyncBuffer, error) {
 		kl := &tlspair.SyncBuffer{}
 		var r *tlspair.Result
@@ -276,7 +299,11 @@ func (sc *scenario) record() (*transcript, error) {
 				r = tlspair.RunZG(cc, gs, tlspair.Options{})
 			} else {
 				peer := *sc
-				r = tlspair.RunZZ(cc, peer.eutServer(nil), tlspair.Options{})
+				ps := peer.eutServer(nil)
+				if primeRun && sc.PrimeSuite != 0 {
+					ps.CipherSuites = []uint16{sc.PrimeSuite}
+				}
+				r = tlspair.RunZZ(cc, ps, tlspair.Options{})
 			}
 		} else {
 			scfg := sc.eutServer(kl)
@@ -324,7 +351,10 @@ func (sc *scenario) record() (*transcript, error) {
 		// first session primes the caches, the second one is the resumed transcript
 		goCache = gotls.NewLRUClientSessionCache(4)
 		peerCache = &frozenCache{open: true}
-		if _, _, err := run(); err != nil {
+		primeRun = true
+		_, _, err := run()
+		primeRun = false
+		if err != nil {
 			return nil, err
 		}
 		if cache != nil {
@@ -733,7 +763,11 @@ func runC32(c *core.Ctx) {
 		}
 		var t *transcript
 		var err error
-		if pi := core.Guard(func() { t, err = sc.record() }); pi != nil {
+		// a panic inside the genuine sessions runs on the pair runner's goroutines and ends the process: the open case names the recording
+		c.Begin(sc.Name+"#record", map[string]any{"scenario": sc.Name, "plan": "recording of the genuine session(s), no fault"})
+		pi := core.Guard(func() { t, err = sc.record() })
+		c.End(sc.Name + "#record")
+		if pi != nil {
 			c.Violation("recording-"+panicKey(pi), pi.Value+"\n"+pi.Stack, sc.Name+"#record", map[string]any{"scenario": sc.Name})
 			continue
 		}
@@ -844,6 +878,37 @@ func runC32(c *core.Ctx) {
 					last = o.calls[0].Name + " -> " + o.calls[0].Err
 				}
 				c.Sample(map[string]any{"case": id, "mutation": m, "reached": o.reached, "first_call": last, "bytes_consumed": o.consumed})
+			}
+		}
+
+		// ServerHello / HelloRetryRequest sweep (client under test): every identifier and version field of the plaintext hello
+		// set to each value of a small table (all TLS 1.3 suites, versions, groups, extension ids), framing untouched
+		if sc.EUT == "client" {
+			for _, hc := range helloCases(t.items, t.tls13, tls12sig) {
+				if blockedSeen >= 3 {
+					return
+				}
+				id := fmt.Sprintf("%s#hello/%d/%d/%04x", sc.Name, hc.item, hc.off, hc.val)
+				if c.OnlyCase != "" && c.OnlyCase != id {
+					continue
+				}
+				items := make([]item, len(t.items))
+				copy(items, t.items)
+				items[hc.item].Frag = hc.frag
+				chunks := applyEdits(serialise(items, t.prot), nil)
+				input := map[string]any{"scenario": sc.Name, "plan": "server hello field", "record": hc.item, "field": hc.name, "offset": hc.off, "value": fmt.Sprintf("%#x", hc.val), "seed": c.Seed}
+				c.Begin(id, input)
+				o := t.replay(chunks, hc.item, 0, false, false, false)
+				c.End(id)
+				c.Eval(1)
+				c.Count("plan:server-hello-field-sweep", 1)
+				judge(c, id, input, chunks, o)
+				if o.reached {
+					c.Nontrivial(id)
+					c.Count("fault_reached", 1)
+				} else {
+					c.Count("fault_not_reached", 1)
+				}
 			}
 		}
 
